@@ -1,5 +1,5 @@
 #!/bin/sh
-# Mutation sanity for FX-C07-FPTOTAL (fingerprint_url returns an unparseable url as normalize_url does).
+# Mutation sanity for FX-C07-c806a8b (fingerprint_url returns an unparseable url as normalize_url does).
 # Works on a plain copy of the patched scratch tree (/tmp/fptotal-repo = /repo + notes/fixes/fingerprint-url-unparseable-returned.diff).
 # usage: notes/fptotal-mutations.sh ; each mutant must be reported as a VIOLATION by ./check C07 and ./check C06
 set -u
